@@ -8,6 +8,7 @@ from vf.core import Ob, R, B
 from vf.rt import assume, pick, conc, cb
 from vf.stubs import mkconn
 from props.C03 import client_verify
+from props.C17 import known_hosts as kh_lookup
 
 ASSUMPTIONS = [
     'keys are model objects compared by identity of their public data; decode_ssh_public_key / decode_ssh_certificate are stubs that return the '
@@ -179,6 +180,13 @@ OBLIGATIONS = [
        bounds='certificate type x wanted type (any/user/host) x window/now in 0..5 x 4 principal lists x wanted principal {listed name, other, None}'),
     Ob('match_sets', match_sets, sym=dict(nk=R(0, 2), nca=R(0, 2), nrev=R(0, 2)), timeout=90,
        functions=[C.SSHConnection._match_known_hosts], bounds='0..2 keys in each of the three result lists'),
+    Ob('known_hosts_lookup', kh_lookup,
+       sym=dict(m0=R(0, 2), f0=R(0, 13), k0=R(0, 2), m1=R(0, 2), f1=R(0, 13), k1=R(0, 2), hi=R(0, 3), ai=R(0, 2), port=B),
+       shards=dict(f0=[0, 6, 7, 11], k0=[0], k1=[1], m1=[0], m0=[0, 1], ai=[0, 1]),
+       thorough_shards=dict(f0=list(range(14)), k0=[0], k1=[1], m0=[0, 1, 2]),
+       timeout=200, thorough_timeout=600,
+       functions=['asyncssh.known_hosts.SSHKnownHosts.match / _match (same harness as C17.known_hosts)'],
+       bounds='2-line known_hosts files: first line exact / [host]:port / [*]:port / hashed-with-port form, plain or @cert-authority; second line any of 14 forms; host/address/port queries - the trusted / CA / revoked sets equal the reference lookup incl. the port fallback rule'),
     Ob('no_newkeys_without_trust', client_verify, sym=dict(f=R(0, 6), sigflaw=R(0, 4), keyok=B, trailing=B), timeout=150,
        functions=['asyncssh.kex_dh._KexDHBase._process_reply (same harness as C03.client_verify)'],
        bounds='see C03.client_verify: NEWKEYS only after validate_server_host_key returned and the signature verified'),
